@@ -61,7 +61,7 @@ def drive_(a, rng, opts=None, samples=None):
         k = rng.randint(1, min(4, N))
         samples = rng.sample(range(N), k)
     kw = {k: bool(v) for k, v in o.items()}
-    sts, nm = ts.simplify(samples, map_nodes=True, **kw)
+    sts, nm = ts.simplify(gen.arg_form(rng, samples) if samples is not None else None, map_nodes=True, **kw)
     # simplifying again (all samples of the result, same options) must change nothing
     s2 = sts.simplify([int(nm[s]) for s in samples], **kw)
     ta, tb = sts.dump_tables(), s2.dump_tables()
